@@ -3,11 +3,18 @@
 Engine E on the real stack: every boundary address of every block of the IANA IPv4/IPv6
 special-purpose registries (hand-copied table `vmc/refs/ianaref.py`), in plain, IPv4-mapped,
 zone-scoped and mapped+scoped notation, crossed with block_global x block_private x proxy
-mode, is used as the peer address of a mock client socket of the real
-ProxyConnectionHandler (World driver) with the real Block addon in the addon chain.
-A first client message is already readable when the connection is accepted; a refused
-client must get the writer closed with no hook other than client_connected /
-client_disconnected, no upstream connection and no byte written.
+mode, is judged on two layers:
+
+  direct   the full product, `Block.client_connected` called on a real `connection.Client`
+           (options registered by `Block.load` on a real Master) - what the repository's tests do
+           for ~40 addresses;
+  handler  the address is the peer name of a mock client socket of the real
+           ProxyConnectionHandler (World driver) with the real Block addon in the addon chain:
+           every spelling x option pair (modes dealt round-robin), representatives x every mode,
+           and in the thorough tier the full product over the quick address set.
+           A first client message is already readable when the connection is accepted; a refused
+           client must get the writer closed with no hook other than client_connected /
+           client_disconnected, no upstream connection, nothing read and no byte written.
 """
 from __future__ import annotations
 
@@ -189,6 +196,15 @@ def first_message(mode, transport):
 def observe(case):
     """run one connection on the real handler; returns the observation dict"""
     mode = mode_specs.ProxyMode.parse(case["mode"])
+    # World resets the cached master's options before it re-points mitmproxy.ctx at that master; the direct layer
+    # (same process in the quick tier) leaves ctx at its own master, so point it back first
+    import mitmproxy.ctx as mctx
+    from vmc.drivers import world as _world
+
+    cached = _world._MASTERS.get("c22")
+    if cached is not None:
+        mctx.master = cached[0]
+        mctx.options = cached[0].options
     w = World(mode=mode, addons=[Block()], master_key="c22", client_peer=(case["addr"], 51000),
               opts={"block_global": case["bg"], "block_private": case["bp"]}, transport=case["transport"], auto_connect=True)
     try:
@@ -410,9 +426,11 @@ def run(ctx):
     ctx.log("%d spellings (%d v4 + %d v6 addresses), %d modes: %d direct cases, %d handler cases" % (
         len(items), len(a4), len(a6), len(modes), len(items) * 4 * len(modes), len(cases)))
     # one chunk per worker: the work per case is small, so pool overhead is kept minimal
-    par.pmap_tally(direct_chunk, items, ctx.tally, nchunks=par.NPROC)
+    # (the quick tier is ~7 s of CPU in total: it runs in-process, forking a pool costs more than it saves)
+    nproc = par.NPROC if thorough else 1
+    par.pmap_tally(direct_chunk, items, ctx.tally, nchunks=par.NPROC, nproc=nproc)
     ctx.log("direct layer done")
-    par.pmap_tally(chunk_fn, cases, ctx.tally, nchunks=par.NPROC * 2)
+    par.pmap_tally(chunk_fn, cases, ctx.tally, nchunks=par.NPROC * 2, nproc=nproc)
     t = ctx.tally
     ctx.log("extra counters: %s" % dict(sorted(t.extra.items())))
     ctx.log("not judged: %d cases in %d blocks" % (sum(t.notes.values()), len(t.notes)))
